@@ -2,7 +2,7 @@
 import re
 from lm.db import short
 from lm import tables, expr as X
-from lm.match import norm
+from lm.match import norm, m
 
 
 def typenum(s):
@@ -264,3 +264,49 @@ def shared_rule(db, ctx, fn, new_id, text, old_ids):
         ctx.rules_text.pop(k, None)
         if k in ctx.floors:
             ctx.floors[new_id + '-' + k] = ctx.floors.pop(k)
+
+
+# ---- loop-form independent views of "the j-th element of a row" ----------------------------------------------------------------------
+_ITER_CALLS = ('slice::iter', 'iter::into_iter', 'IntoIterator::into_iter', 'GenericArray::iter', 'slice::iter_mut')
+
+
+def index_form(e):
+    """e is a loop index variable: (loop id, extent expr, sequence or None).
+    Forms: `i` of `for i in 0..N`  |  `i` of `for (i, x) in xs.iter().enumerate()` (extent = len(xs))."""
+    e = norm(e)
+    if e[0] == 'elem' and e[1][0] == 'agg' and len(e[1][2]) == 2 and norm(e[1][2][0]) == ('k', 0):
+        return (e[2], norm(e[1][2][1]), None)
+    b = m(('fld', ('elem', ('call~', 'Iterator::enumerate', (('call~', _ITER_CALLS, ('$xs',)),)), '$L'), '0'), e)
+    if b is not None:
+        return (b['$L'], ('len', b['$xs']), b['$xs'])
+    return None
+
+
+def cell_form(e):
+    """e denotes xs[j] for a loop index j: (xs, index expr, loop id, extent).
+    Forms: `xs[j]` with j an index_form  |  `x` of `for (j, x) in xs.iter().enumerate()`."""
+    e = norm(e)
+    if e[0] == 'idx':
+        ix = index_form(e[2])
+        if ix is not None:
+            ext = ix[1]
+            return (e[1], e[2], ix[0], ext)
+    b = m(('fld', ('elem', ('call~', 'Iterator::enumerate', (('call~', _ITER_CALLS, ('$xs',)),)), '$L'), '1'), e)
+    if b is not None:
+        j = ('fld', ('elem', norm(e)[1][1], b['$L']), '0')
+        return (b['$xs'], j, b['$L'], ('len', b['$xs']))
+    return None
+
+
+def covers_all_columns(extent, xs):
+    """The loop extent is the full width of the row xs: the typenum constant C::USIZE, or len(xs) for a whole matrix row
+    (rows are fixed-size arrays of exactly C elements)."""
+    if is_usize_const(extent):
+        return True
+    if extent[0] == 'len' and norm(extent[1]) == norm(xs):
+        x = norm(xs)
+        whole_row = m(('fld', ('elem', ('call~', 'Iterator::enumerate', (('call~', 'DenseMatrix::iter', ('_',)),)), '_'), '1'), x) is not None \
+            or m(('elem', ('call~', 'DenseMatrix::iter', ('_',)), '_'), x) is not None \
+            or m(('call~', ('::index', '::index_mut'), ('_', '_')), x) is not None
+        return whole_row
+    return False
